@@ -556,33 +556,6 @@ func vfC02CheckOne(t *rapid.T, c *vfC02Conf, q *vfC01Query, o *vfOutcome, blocke
 
 }
 
-// vfWireStrings renders rrs with the SVCB parameters of HTTPS records ordered
-// by key, which is the order of the wire form (RFC 9460 2.2) and what comes
-// back from the DNS cache.
-func vfWireStrings(rrs []dns.RR) (ss []string) {
-	for _, rr := range rrs {
-		rr = dns.Copy(rr)
-		if h, ok := rr.(*dns.HTTPS); ok {
-			sort.SliceStable(h.Value, func(i, j int) bool { return h.Value[i].Key() < h.Value[j].Key() })
-		}
-		ss = append(ss, rr.String())
-	}
-
-	return ss
-}
-
-// vfDropTTL is vfWireStrings with every TTL set to zero.
-func vfDropTTL(rrs []dns.RR) (ss []string) {
-	var cp []dns.RR
-	for _, rr := range rrs {
-		rr = dns.Copy(rr)
-		rr.Header().Ttl = 0
-		cp = append(cp, rr)
-	}
-
-	return vfWireStrings(cp)
-}
-
 // vfCheckBlockedResponse is vfCheckBlocked plus: no record of the upstream
 // answer may appear in the reply.
 func vfCheckBlockedResponse(cc *vfC01Conf, q *vfC01Query, o *vfOutcome, upstreamRRs []dns.RR) (err error) {
